@@ -135,7 +135,7 @@ package badger
 // as it was (C28); an accepted write is recorded under its key, replacing an earlier pending
 // write of the same key, which is kept as a duplicate only if its version differs (C27, C04).
 //@ func (*Txn).modify
-//@   props C28 C27 C04
+//@   props C28 C27 C04 C36
 //@   requires txn.db != nil && e != nil && txn.db.threshold != nil && txn.db.bannedNamespaces != nil
 //@   requires txn.update ==> txn.pendingWrites != nil && allnonnil(txn.pendingWrites) && (txn.db.opt.DetectConflicts ==> txn.conflictKeys != nil)
 //@   domain txn.db.opt.NamespaceOffset < 1<<40
